@@ -5,6 +5,7 @@ package c07
 import (
 	"fmt"
 	"testing"
+	"time"
 
 	"github.com/go-openapi/strfmt"
 	"github.com/go-openapi/validate"
@@ -23,9 +24,12 @@ func TestMain(m *testing.M) {
 		"Each loaded document is validated with continue-on-errors off and on through NewSpecValidator(...).Validate, and through validate.Spec. Oracle: no panic, no fatal error (the worker process survives), both results non-nil. "+
 		"Non-trivial = the document loads, carries at least one edit below the top level and reaches the second pass (no schema-pass error, or continue-on-errors); distinct by content hash",
 		"loader panics/errors are not the library's: counted under excluded",
-		"documents on which a recorded crasher would fire are avoided by construction and counted (see known_findings.json)")
+		"documents on which a recorded crasher would fire are avoided by construction and counted (see known_findings.json)",
+		"non-termination is observed through a 120 s watchdog per validation (documents of this size take under a second): the one deliberate use of the wall clock, with a margin of more than two orders of magnitude")
 	ev.Main(m, "C07")
 }
+
+const watchdog = 120 * time.Second
 
 type Case struct {
 	Doc    string   `json:"doc"`
@@ -65,7 +69,20 @@ func check(c Case) (out ev.Outcome) {
 				continue
 			}
 		}
-		o := obs.ValidateSpec(doc, strfmt.Default, cont, nil)
+		var o obs.SpecOutcome
+		finished := make(chan struct{})
+		go func() {
+			defer close(finished)
+			o = obs.ValidateSpec(doc, strfmt.Default, cont, nil)
+		}()
+		select {
+		case <-finished:
+		case <-time.After(watchdog):
+			// Deliberate exception to "no wall-clock oracles": these documents are a few kilobytes and validate in
+			// 0.1–0.5 s; the limit is more than two hundred times that, so only a validation that does not terminate
+			// (an endless loop was found this way) can reach it. The stuck goroutine is abandoned.
+			return ev.Failf("continue-on-errors=%v: spec validation did not return within %s (documents of this size take well under a second)", cont, watchdog)
+		}
 		if o.Panic != "" {
 			hook.ResetPools()
 			return ev.Failf("continue-on-errors=%v: spec validation panicked: %s [%s]", cont, o.Panic, obs.ShortStack(o.Stack))
